@@ -163,6 +163,14 @@ def unit_Forwarding(repo):
     L.append("def layeredShape : List (String × String × String) := [")
     L.append(",\n".join('  ("%s", "%s", "%s")' % r for r in shape_rows))
     L.append("]")
+    # reload.rs: every callback of the reloadable wrapper WAITS for the lock (`self.inner.read()` / `.write()` through
+    # `try_lock!`, which only gives up on a poisoned lock while panicking): a notification is never skipped because a reload
+    # happens to be in progress
+    import re as _re
+    rel_toks = ' '.join(rtok.toks(rel)) if hasattr(rtok, 'toks') else rel
+    blocking = ('try_read' not in rel) and ('try_write' not in rel) and ('TryLockError' not in rel)
+    L.append("/-- reload.rs never polls its lock (`try_read` / `try_write`): callbacks wait for a reload in progress -/")
+    L.append("def reloadLocksBlocking : Bool := %s" % ('true' if blocking else 'false'))
     L.append("end TM.Gen.Forwarding")
     sources = ["%s sha256/16=%s" % (k, rtok.sha(v)) for k, v in sorted(srcs.items())]
     return "\n".join(L) + "\n", sources
